@@ -72,6 +72,15 @@ def run(ctx):
                                       ([(0, 1), (1, 2), (2, 0)], [1e150, 1e160, 2.0], [True] * 3, [0, 1, 2], 3),
                                       ([(0, 1), (1, 2), (2, 0)], [2.0 / 3, 2.0 / 3 + 3e-9, 0.7], [False] * 3, [0, 1, 2], 3),
                                       ([(0, 1), (0, 1)], [1.0 + 2e-9, 1.0, ], [True, True], [0, 1], 3),
+                                      # a propagator power of exactly 0 (1/Gamma(0) = 0: the normalisation vanishes)
+                                      ([(0, 1), (0, 1), (0, 1)], [0.0, 0.9, 0.9], [False] * 3, [0, 1], 3),
+                                      # Gamma values beyond 1e100 (still far inside f64), and a degree of divergence just below the overflow of Gamma
+                                      # together with a large pi^(D L/2): the normalisation is an ordinary number, intermediate products need not be
+                                      ([(0, 0)], [120.0], [True], [0], 3),
+                                      ([(0, 1), (0, 1)], [60.0, 60.0], [True, True], [0, 1], 3),
+                                      ([(0, 1), (0, 1), (0, 1)], [60.5, 60.5, 61.0], [True] * 3, [0, 1], 13),
+                                      ([(0, 1)] * 5, [36.25, 36.25, 36.25, 36.25, 36.5], [True] * 5, [0, 1], 6),
+                                      ([(0, 1), (0, 1)], [85.0, 86.0], [True, True], [0, 1], 4),
                                       ([(0, 1), (1, 2), (2, 3), (3, 0)], [0.8, 0.8 * (1 + 4e-8), 0.8 * (1 - 3e-8), 0.9], [False] * 4, [0, 1, 2, 3], 3)):
         dod, Lf, table = oracle.table_oracle(edges, w, massive, ext, D)
         if not oracle.divergent_subsets(table):
@@ -211,6 +220,12 @@ def run(ctx):
             ctx.count("dod_at_gamma_pole_skipped"); continue
         if dodf > 170 or max(c["weights"]) > 170:
             ctx.count("gamma_overflows_f64(normalisation not representable)_skipped"); continue
+        if any(w == 0 for w in c["weights"]):
+            # 1/Gamma(0) = 0 exactly
+            if b2f(a["cached"]) != 0.0:
+                ctx.violation(f"a propagator power is exactly 0, so the normalisation J Gamma(dod)/prod Gamma(w) pi^(DL/2) is 0; stored: {b2f(a['cached'])!r}", r,
+                              expected=0.0, observed=b2f(a["cached"]))
+            continue
         cx = cached_oracle(c, Jx[-1])
         # Gamma(dod) is evaluated at the ROUNDED dod: near 0 (and near other arguments where Gamma varies fast) the rounding of
         # dod = sum w - L D/2 is amplified by |psi(dod)| ~ 1/|dod|
